@@ -775,6 +775,7 @@ func TestVerifEvm(t *testing.T) {
 		nWs, _ = strconv.Atoi(v)
 	}
 	g.directCases(t, nDirect)
+	g.w.Flush()
 	if os.Getenv("VERIF_EVM_NOSC") == "" {
 		g.scenarioCases(t)
 	}
